@@ -1,22 +1,16 @@
 """Attribution of C13 failures to entries of known_findings.json.
 
-Each function gets the failing record produced by harness/checks/c13.py and decides — by re-running
-the real code with exactly ONE defect repaired in memory (harness/tasks/c13.py: `_apply_repairs`) —
-whether this failure is the listed finding.  A failure that the single repair does not cure is not
-attributed (and is therefore reported as a violation).
+The function gets the failing record produced by harness/checks/c13.py and decides — by re-running the
+real code with exactly ONE defect repaired in memory (harness/tasks/c13.py: `_apply_repairs`) — whether
+this failure is the listed finding.  A failure that the repair does not cure is not attributed (and is
+therefore reported as a violation).
 
-    (F5, the "Expt" typo in the guard of get_func_moment, was repaired in /repo e78913c; it has no
-    attribution any more: a recurrence is a violation.)
-    F131  conditioned functional assignment `s = Sin(u) | cond : s`: the new function value and the
-          default share the symbol `s`, the condition is lost.  Cure: with a separate placeholder
-          for the new value the closed forms agree with the oracle.
-    F133  derivative of a Piecewise transform at its special point (Beta.cf is
-          Piecewise((generic, t != 0), (1, True)); `diff` differentiates the constant branch to 0, so
-          the frequency-0 term phi^(a)(0) = i^a E[X^a] of get_trig_moment is dropped for a >= 1).
-          Cure: with the derivative at 0 taken as the limit of the generic branch the values agree.
     F132  decimal literals that are not converted to rationals (argument of Sin/Cos/Exp, distribution
           parameters such as `pi/4 - 0.1`) stay machine floats: results carry ~1e-13..1e-17 errors
           also in exact mode.  Cure: with the literals converted the values agree.
+
+F5 ("Expt" typo, /repo e78913c), F131 (conditioned functional assignment, 2697d27) and F133 (frequency-0
+term, c7c1f2a) are fixed; they have no attribution any more: a recurrence is a violation.
 """
 from . import c13_lib as L
 from .pool import run_tasks
@@ -51,34 +45,6 @@ def _program_agrees(record, repairs):
     return True
 
 
-def _has_conditioned_func(prog):
-    def walk(stmts, inside):
-        for st in stmts:
-            if st[0] == "assign":
-                if inside and any(r[0] == "func" for r in st[2]):
-                    return True
-            else:
-                if walk(st[2], True) or walk(st[3], True):
-                    return True
-        return False
-    return walk(prog["init"], False) or walk(prog["body"], False)
-
-
-def attr_f131(prop, record):
-    if record.get("kind") != "program":
-        return None
-    try:
-        prog = L.parse_prob(record["text"])
-    except Exception:
-        return None
-    if not _has_conditioned_func(prog):
-        return None
-    if _program_agrees(record, ["condfunc"]):
-        return ("conditioned functional assignment: the condition and the default are lost "
-                f"(E at first mismatch: polar {record.get('actual')}, true {record.get('expected_at')})")
-    return None
-
-
 def _has_decimal(text):
     import re
     body = "\n".join(l.split("#")[0] for l in text.split("\n"))
@@ -106,34 +72,5 @@ def attr_f132(prop, record):
         if _program_agrees(record, ["floats"]):
             return ("decimal literal kept as a machine float (argument of a functional assignment or a parameter "
                     f"like pi/4 - 0.1): polar {record.get('actual')}, true {record.get('expected_at')}")
-        return None
-    return None
-
-
-def attr_f133(prop, record):
-    kind = record.get("kind")
-    mp = L._mp()
-    if kind == "moment":
-        pw = record["powers"]
-        if record.get("family") != "Beta" or pw.get("Id", 0) < 1 or "Exp" in pw:
-            return None
-        if (pw.get("Sin", 0) + pw.get("Cos", 0)) % 2 != 0 or record.get("expected") is None:
-            return None
-        res = _run("polar_moment_repaired", {"family": record["family"], "params": record["params"], "powers": pw,
-                                             "mode": record["mode"], "repairs": ["freq0"]})
-        if not res or not res.get("ok"):
-            return None
-        exp = mp.mpf(record["expected"])
-        if L.close((mp.mpf(res["re"]), mp.mpf(res["im"])), exp, abs(exp), record["mode"]):
-            return (f"get_func_moment(Beta({', '.join(record['params'])}), {pw}) drops the frequency-0 term "
-                    f"(derivative of the Piecewise cf at t = 0 is taken of the constant branch): "
-                    f"returned {record.get('actual')}, true value {record.get('expected')}")
-        return None
-    if kind == "program":
-        if "Beta(" not in record["text"]:
-            return None
-        if _program_agrees(record, ["freq0"]):
-            return ("Beta draw with X**a (a >= 1) times an even power of Sin/Cos: the frequency-0 term is dropped "
-                    f"(polar {record.get('actual')}, true {record.get('expected_at')})")
         return None
     return None
